@@ -8,6 +8,7 @@ import (
 	"bytes"
 	"fmt"
 	"os"
+	"os/exec"
 	"path/filepath"
 	"regexp"
 	"sync"
@@ -283,6 +284,8 @@ func vfGenInChunk(rt *rapid.T, drag bool) []byte {
 		b = []byte(rapid.SampledFrom([]string{"ls -l\r", "\x03", "\x1b[A", "\x1b[200~pasted text\x1b[201~", "\x1b[200~", "\x1b[201~", "q", "\t", "\x04", "send -t %1 0x3\r"}).Draw(rt, "keys"))
 	case 3: // path-like text naming files that do not exist
 		b = []byte(rapid.SampledFrom([]string{"/no-such-dir-vf/a.txt ", "'/no-such-dir-vf/a b.txt' ", "/no-such-dir-vf/a /no-such-dir-vf/b ", "/no-such-dir-vf/x", "'/no-such-dir-vf/unterminated ",
+			// lists that are only partly existing paths are not a drag: they pass through like any other input
+			"/tmp /no-such-dir-vf/a ", "/no-such-dir-vf/a /tmp ", "'/tmp' '/no-such-dir-vf/a b' ", "/ /etc /no-such-dir-vf/z ", "/etc/hostname /no-such-dir-vf/z /tmp ",
 			"C:\\no\\such\\file.txt", "\"C:\\no such\\f.txt\"", "/c/no-such/file "}).Draw(rt, "paths"))
 	case 4:
 		b = []byte(rapid.SampledFrom([]string{"trz\r", "tsz file\r", "exit\r", "::TRZSZ:TRANSFER:S:1.1.8\r"}).Draw(rt, "cmd"))
@@ -358,4 +361,76 @@ func TestVF_C05(t *testing.T) {
 		c.eval(cs, st.chunks >= 2, labels...)
 		return msg
 	})
+}
+
+// TestVF_C05Exit (E5): the real trzsz binary in front of a pty. The wrapped command's exit status is passed on and its
+// output reaches stdout unmodified (the slave side is put into raw mode first, so the tty layer does not translate).
+func TestVF_C05Exit(t *testing.T) {
+	c := vfNewCollector("C05", "TestVF_C05Exit")
+	defer vfFlushAll()
+	if vfReplayOnly() {
+		return
+	}
+	shard, shards := vfShard()
+	base, err := os.MkdirTemp("", "vfc05e")
+	if err != nil {
+		t.Fatal(err)
+	}
+	defer os.RemoveAll(base)
+	payload := vfContent(vfKindNoise, 42, 5000)
+	// keep clear of bytes a cooked-mode tty would act on before `stty raw` takes effect
+	file := filepath.Join(base, "payload.bin")
+	os.WriteFile(file, payload, 0644)
+	job := 0
+	for _, code := range []int{0, 1, 7, 255} {
+		for _, opts := range [][]string{nil, {"-d"}, {"-z", "-o"}, {"-t", "-d", "-z", "-o"}} {
+			job++
+			if job%shards != shard {
+				continue
+			}
+			cs := map[string]any{"exit": code, "options": opts}
+			args := append(append([]string{}, opts...), "sh", "-c", fmt.Sprintf("stty raw -echo; cat %s; exit %d", file, code))
+			cmd := exec.Command(vfBinPath("trzsz"), args...)
+			stdin, _ := cmd.StdinPipe() // stays open: EOF on stdin would end the pty
+			var out bytes.Buffer
+			cmd.Stdout = &out
+			cmd.Env = append(os.Environ(), "HOME="+base)
+			err := cmd.Start()
+			if err != nil {
+				t.Fatalf("cannot start trzsz: %v", err)
+			}
+			done := make(chan error, 1)
+			go func() { done <- cmd.Wait() }()
+			var werr error
+			select {
+			case werr = <-done:
+			case <-time.After(20 * time.Second):
+				cmd.Process.Kill()
+				werr = <-done
+			}
+			stdin.Close()
+			got := 0
+			if ee, ok := werr.(*exec.ExitError); ok {
+				got = ee.ExitCode()
+			} else if werr != nil {
+				got = -1
+			}
+			c.eval(cs, true, "trzsz_binary_exit_status")
+			if got != code {
+				msg := fmt.Sprintf("trzsz %v: the wrapped command exited with %d, trzsz with %d", opts, code, got)
+				c.violation("exit_status", cs, msg)
+				t.Errorf("%s", msg)
+			}
+			if !bytes.Contains(out.Bytes(), payload) {
+				msg := fmt.Sprintf("trzsz %v: the wrapped command's output (%d bytes) did not reach stdout unmodified (%d bytes arrived, common prefix %d)", opts, len(payload), out.Len(), vfLCP(out.Bytes(), payload))
+				if vfKnown("F15") && (out.Len() == 0 || bytes.HasPrefix(payload, out.Bytes())) {
+					// recorded finding: trzsz exits as soon as the wrapped command has exited, without draining the pty; only a lost tail matches
+					c.known("F15", cs, msg)
+				} else {
+					c.violation("exit_output", cs, msg)
+					t.Errorf("%s", msg)
+				}
+			}
+		}
+	}
 }
